@@ -55,8 +55,14 @@ func FindClass(name string) (c Class) {
 			return nil
 		}
 		name = name[index+1:]
+		return pkg.FindClass(name)
 	}
-	return pkg.FindClass(name)
+	if c = pkg.FindClass(name); c == nil && pkg != clPkg && clPkg != nil {
+		// The built in classes, among them the conditions raised by the
+		// functions of slip itself, are found from any package.
+		c = clPkg.FindClass(name)
+	}
+	return
 }
 
 // RegisterClass a class.
